@@ -339,6 +339,17 @@ fn check_cli(out: &mut Outcome, case: &Value, r: &cli::Run, args: &[String], pre
             } else {
                 out.check(summary == vec![(skipped, sites)], || format!("create/cli-{label}/skip-summary"), || json!({"got": summary, "want": [skipped, sites], "stderr": r.stderr}));
             }
+            // which skipped sites are announced: the first one by default, all of them from -v on
+            {
+                let key = if verbose { "announced_verbose" } else { "announced_default" };
+                let want_sites: Vec<String> = case[key].as_array().map(|a| a.iter().map(|x| x.as_str().unwrap().to_string()).collect()).unwrap_or_default();
+                let got_sites: Vec<String> = r.stderr.lines().filter_map(|l| {
+                    let i = l.find("Skipping site '")?;
+                    let rest = &l[i + 15..];
+                    Some(rest[..rest.find('\'')?].to_string())
+                }).collect();
+                out.check(got_sites == want_sites, || format!("create/cli-{label}/skip-announcements"), || json!({"got": got_sites, "want": want_sites, "verbose": verbose}));
+            }
             if verbose {
                 // -vv: one trace line per skipped sample, with the reason the specification gives
                 let mut want_lines: Vec<String> = Vec::new();
